@@ -38,6 +38,7 @@ fixed = [
     "fixed: property=C10 29c8d6e after a decorator replaced the context a missing path was delivered as null: strict mode accepted {{nope}} and missing helper arguments – F17",
     "fixed: property=C18 4485eb0 an error inside an inline partial / partial-block body was labelled with the including partial's name – F9",
     "fixed: property=C13 e78d0f2 number literals with an exponent or more than 19 digits ({{h 108E-28}}) reached the helper one ulp away from the value written: serde_json was built without float_roundtrip – F18",
+    "fixed: property=C11 84029ad a standalone tag with a trailing '~' followed by whitespace and then directly by a value tag left the 'trim the rest of the line' marker set: '{{> p~}}\\n{{v}}  z' rendered 'PVz' instead of 'PV  z' (whitespace beyond the neighbouring tag removed; found by the neighbour-tag grid of C11 added after seeded change C03-3 was missed) – F21",
     "fixed: property=C16 1035401 hash arguments were evaluated in HashMap order: with two failing arguments ({{> p k=(lookup nope 'x') x=(eq nope 1)}} in strict mode) render and render_template, or two runs of the same program, failed with different errors – F19",
 ]
 for k in known:
